@@ -1,5 +1,6 @@
 (* C14 — ConfirmSmoother emits every tag once, in order, with its true outcome.
    This file only pins statements: Theorem / exact / Check / Print Assumptions. *)
+From Amq Require Import Lib.RsVal Gen.SrcConfirm Proofs.ConfirmSrc.
 From Amq Require Import Lib.Base Model.Confirm Spec.Confirm Proofs.Confirm.
 
 (* Exact half.  h is ANY history without two single confirmations of one tag
@@ -66,6 +67,24 @@ Proof.
   - vm_compute. reflexivity.
 Qed.
 
+(* THE MODEL IS THE SOURCE (src/confirm.rs as translated from the source text on every run: Gen/SrcConfirm.v,
+   tools/rs2sm.py).  ConfirmSmoother::process / new_iter build the iterator the model starts from: payload,
+   nothing pending, not done, the closure that makes an Ack or a Nack as the raw confirmation was. *)
+Theorem C14_process_source_is_model : forall (p : smoother) (r : raw), gen_ConfirmSmoother_process (enc_smoother p) (enc_raw r) = (enc_smoother p, enc_self p (new_iter r)).
+Proof. exact process_source_is_model. Qed.
+
+(* Iter::next as translated is the model's `next` - the function C14_exact / C14_safety / C14_drop are about -
+   for EVERY smoother state (expected tag, out-of-order map), iterator state and payload: what is yielded, the
+   smoother afterwards, the iterator afterwards.  ext_st_model is HashMap::remove / insert on the out_of_order
+   field, ext_model the closure to_confirm. *)
+Theorem C14_next_source_is_model : forall (p : smoother) (it : iter), gen_Iter_next ext_model ext_st_model (enc_self p it) = (let '(o, p', it') := next p it in (enc_self p' it', enc_opt o)).
+Proof. exact next_source_is_model. Qed.
+
+(* impl Drop for Iter as translated (`while !self.done { let _ = self.next(); }`, a recursive function on fuel)
+   is the model's drop_iter whenever that runs the iterator to its end. *)
+Theorem C14_drop_source_is_model : forall (fuel : nat) (p : smoother) (it : iter), it_done (snd (drop_iter fuel p it)) = true -> gen_Iter_drop ext_model ext_st_model (S fuel) (enc_self p it) = (enc_self (fst (drop_iter fuel p it)) (snd (drop_iter fuel p it)), VC "()" []).
+Proof. exact drop_source_is_model. Qed.
+
 Check C14_exact : forall e0 h,
   singles_distinct h ->
   exists outs p, run_all (new_smoother e0) h = (outs, p) /\
@@ -83,8 +102,15 @@ Check C14_no_overflow : forall e0 h,
   singles_distinct h -> tags_below u64_max h -> e0 <= u64_max ->
   expected (snd (run_all (new_smoother e0) h)) <= u64_max.
 
+Check C14_process_source_is_model : forall (p : smoother) (r : raw), gen_ConfirmSmoother_process (enc_smoother p) (enc_raw r) = (enc_smoother p, enc_self p (new_iter r)).
+Check C14_next_source_is_model : forall (p : smoother) (it : iter), gen_Iter_next ext_model ext_st_model (enc_self p it) = (let '(o, p', it') := next p it in (enc_self p' it', enc_opt o)).
+Check C14_drop_source_is_model : forall (fuel : nat) (p : smoother) (it : iter), it_done (snd (drop_iter fuel p it)) = true -> gen_Iter_drop ext_model ext_st_model (S fuel) (enc_self p it) = (enc_self (fst (drop_iter fuel p it)) (snd (drop_iter fuel p it)), VC "()" []).
+
 Print Assumptions C14_exact.
 Print Assumptions C14_safety.
 Print Assumptions C14_drop.
 Print Assumptions C14_no_overflow.
 Print Assumptions C14_example.
+Print Assumptions C14_process_source_is_model.
+Print Assumptions C14_next_source_is_model.
+Print Assumptions C14_drop_source_is_model.
